@@ -442,7 +442,15 @@ def transformer_scc(ctx, rid, key, comp, g, bindings):
     # order of statements in resolve: lookup -> cache check -> mark in progress -> policy -> store result
     order = []
     weak_marker = False
-    for n in walk(fn["body"]):       # closures in `resolve` are arguments of combinators: they run where they are written
+    def walk_through(body, depth=0):
+        """source order, looking through private helpers of the transformer that do part of `resolve`'s work (their body stands at the call)"""
+        for n in walk(body):       # closures in `resolve` are arguments of combinators: they run where they are written
+            yield n
+            if n.get("k") in ("Call", "MethodCall") and n.get("callee") and depth < 3:
+                h = N.transparent_fn(n["callee"], None)
+                if h is not None and h["path"] != fn["path"]:
+                    yield from walk_through(h["body"], depth + 1)
+    for n in walk_through(fn["body"]):
         if n.get("k") == "MethodCall" and cshort(n.get("callee", "")) in ("HashMap::insert", "Entry::or_insert", "Entry::or_insert_with"):
             a = show(N.term(n["args"][-1]))
             kind = "Recursive" if "Recursive" in a else "Computed" if "Computed" in a else a[:30]
